@@ -10,7 +10,8 @@ from vf.core import Suite
 from vf.gen import pick_weighted
 
 ID = "C11"
-THEOREMS = []
+THEOREMS = ["C11_get_is_content", "C11_size_is_content", "C11_has_is_content", "C11_by_offset_is_content",
+            "C11_prefix_complete", "C11_iter_sound_partial", "C11_any_order", "C11_hint_irrelevant"]
 MODEL_FILES = ["ObjStore.v"]
 MODELLED = ("storage/filesystem/object.go: EncodedObject, EncodedObjectSize, HasEncodedObject, IterEncodedObjects (+ object_iter.go "
             "lazyPackfilesIter/packfileIter/objectsIter), HashesWithPrefix, findObjectInPackfile (MRU hint), getFromUnpacked, "
@@ -415,7 +416,7 @@ class Main(Suite):
     go_cmd = "c11"
     base_imports = "From GoGit Require Import Model.ObjStore."
     coq_imports = base_imports
-    quick_n = 240
+    quick_n = 200
     thorough_n = 3000
     coq_chunk = 100
 
@@ -594,6 +595,22 @@ class Main(Suite):
     def local_ids(self, ri):
         st = self.repos[ri]["store"]
         return set(i for i, _, _ in st["loose"]) | set(e["id"] for p in st["packs"] for e in p["entries"])
+
+    def extra(self, ctx, cases, impl, model):
+        """the premise of the theorems on the repositories git built in this run (store_ok), and the model under the
+        other extreme eviction policy (cache nothing) on a sample: must give the same answers"""
+        exprs = ["OBool (Spec.ObjContent.store_ok repo%d)" % i for i in range(len(self.repos))]
+        sample = [c for c in cases if "ri" in c][:40]
+        exprs += [self.model_expr(c).replace("c11_run ", "c11_run_nocache ", 1) for c in sample]
+        outs = ctx.coq_eval(self.coq_imports + "\nFrom GoGit Require Spec.ObjContent.", exprs, chunk=100)
+        ok = sum(1 for o in outs[:len(self.repos)] if o == "true")
+        same = sum(1 for c, o in zip(sample, outs[len(self.repos):]) if o is not None and o == model.get(c["id"]))
+        if ok != len(self.repos):
+            ctx.notes.append("spec_mismatch: store_ok is not true of a git-built repository: %s" % outs[:len(self.repos)])
+        if same != len(sample):
+            ctx.notes.append("model differs between cache-everything and cache-nothing on %d cases" % (len(sample) - same))
+        return {"repositories": len(self.repos), "store_ok_true": ok, "nocache_cases": len(sample), "nocache_same": same,
+                "spec_mismatches": (len(self.repos) - ok) + (len(sample) - same)}
 
     def finding_class(self, case, reason, reply):
         if "[only-alternates-missing]" in reason:
